@@ -133,7 +133,7 @@ func allDeviations(toks []idl.Tok) []deviation {
 		ds = append(ds, deviation{"quote", q, 1})
 	}
 	for n := 0; n < nums; n++ {
-		for a := 1; a <= 4; a++ {
+		for a := 1; a <= 6; a++ {
 			ds = append(ds, deviation{"num", n, a})
 		}
 	}
@@ -180,6 +180,24 @@ func (c *ctx) checkFaithful(d docs.Doc, want *parser.Thrift, text string, how st
 	if p, w := idlast.Diff(r.ast, want, idlast.ParseOnly); p != "" {
 		c.run.Violate(evid.Violation{Class: "ast-mismatch:" + p, What: fmt.Sprintf("document %s (%s): AST%s: got/want %s", d.Name, how, p, w), Replay: map[string]any{"text": text, "path": p}})
 	}
+}
+
+// litShape: the body with runs abstracted (for violation classes): b = backslash, q = the delimiter, o = the other quote, x = text.
+func litShape(b string, q byte) string {
+	var out []byte
+	for i := 0; i < len(b); i++ {
+		switch {
+		case b[i] == '\\':
+			out = append(out, 'b')
+		case b[i] == q:
+			out = append(out, 'q')
+		case b[i] == '"' || b[i] == '\'':
+			out = append(out, 'o')
+		default:
+			out = append(out, 'x')
+		}
+	}
+	return string(out)
 }
 
 func firstLine(s string) string {
@@ -294,6 +312,102 @@ func main() {
 		})
 		run.Set("layout_2_deviations", two)
 		run.EvalN("", two, two)
+	}
+
+	// ---- literal bodies written verbatim: every string over {x, \, ", '} up to length 4 (thorough 5)
+	// between both kinds of quotes, at three positions. Reference (docs/string-literals-in-the-IDL.md and
+	// its example): the body is one literal iff scanning it left to right with the grammar's
+	// (backslash + quote | any character but the delimiter) reaches the closing delimiter exactly;
+	// its text is the body with backslash pairs kept and backslash + delimiter turned into the delimiter.
+	{
+		litAlpha := []byte{'x', '\\', '"', '\''}
+		maxL := 4
+		if thorough {
+			maxL = 5
+		}
+		var bodies []string
+		var gen func(cur []byte)
+		gen = func(cur []byte) {
+			bodies = append(bodies, string(cur))
+			if len(cur) == maxL {
+				return
+			}
+			for _, b := range litAlpha {
+				gen(append(append([]byte{}, cur...), b))
+			}
+		}
+		gen(nil)
+		complete := func(b string, q byte) bool {
+			s := b + string(q)
+			i := 0
+			for i < len(s) {
+				if s[i] == '\\' && i+1 < len(s) && (s[i+1] == '"' || s[i+1] == '\'') {
+					i += 2
+					continue
+				}
+				if s[i] == q {
+					return i == len(s)-1
+				}
+				i++
+			}
+			return false // the closing delimiter was consumed by an escape
+		}
+		textOf := func(b string, q byte) string {
+			var out []byte
+			for i := 0; i < len(b); i++ {
+				if b[i] == '\\' && i+1 < len(b) {
+					if b[i+1] == '\\' {
+						out = append(out, '\\', '\\')
+						i++
+						continue
+					}
+					if b[i+1] == q {
+						continue
+					}
+				}
+				out = append(out, b[i])
+			}
+			return string(out)
+		}
+		var nlit int64
+		for _, q := range []byte{'"', '\''} {
+			for _, b := range bodies {
+				if !complete(b, q) {
+					continue
+				}
+				want := textOf(b, q)
+				lit := string(q) + b + string(q)
+				for pi, doc := range []string{"const string c = " + lit + "\n", "struct S { 1: string f = " + lit + " }\n", "struct S { 1: i32 f } (k = " + lit + ")\n"} {
+					nlit++
+					r := parse(doc)
+					atomic.AddInt64(&c.parses, 1)
+					run.Eval(fmt.Sprintf("rawlit|%d|%c|%s", pi, q, b), len(b) > 0)
+					rp := map[string]any{"document": doc, "expected_literal_text": want}
+					var got string
+					switch {
+					case r.panic != "":
+						run.Violate(evid.Violation{Class: "panic:" + panicClass(r.panic), What: "parser panicked on a literal: " + firstLine(r.panic), Replay: rp})
+						continue
+					case r.err != nil:
+						run.Violate(evid.Violation{Class: "grammatical-rejected:literal-body", What: fmt.Sprintf("document %q rejected: %v", doc, firstLine(r.err.Error())), Replay: rp})
+						continue
+					case pi == 0 && len(r.ast.Constants) == 1 && r.ast.Constants[0].Value.TypedValue.Literal != nil:
+						got = *r.ast.Constants[0].Value.TypedValue.Literal
+					case pi == 1 && len(r.ast.Structs) == 1 && len(r.ast.Structs[0].Fields) == 1 && r.ast.Structs[0].Fields[0].Default != nil && r.ast.Structs[0].Fields[0].Default.TypedValue.Literal != nil:
+						got = *r.ast.Structs[0].Fields[0].Default.TypedValue.Literal
+					case pi == 2 && len(r.ast.Structs) == 1 && len(r.ast.Structs[0].Annotations) == 1 && len(r.ast.Structs[0].Annotations[0].Values) == 1:
+						got = r.ast.Structs[0].Annotations[0].Values[0]
+					default:
+						run.Violate(evid.Violation{Class: "literal-shape", What: fmt.Sprintf("document %q does not yield exactly one literal at the expected place", doc), Replay: rp})
+						continue
+					}
+					if got != want {
+						run.Violate(evid.Violation{Class: "literal-text:" + litShape(b, q), What: fmt.Sprintf("literal %s: AST text %q, the documented rule gives %q", lit, got, want), Replay: rp})
+					}
+				}
+			}
+		}
+		run.Set("raw_literal_documents", nlit)
 	}
 
 	// ---- totality (c): prefixes, deletions, duplications of universe documents
